@@ -48,7 +48,20 @@ func buildQuery(fr *FuncResult, o *Obligation, values []string) string {
 	}
 	b.WriteString("(assert " + o.Reach + ")\n")
 	if !o.Cover {
-		b.WriteString("(assert (not " + o.Goal + "))\n")
+		goal, sks := skolemizeGoal(o.Goal, 0)
+		for _, sk := range sks {
+			b.WriteString("(declare-fun " + sk.name + " () " + sk.sort + ")\n")
+		}
+		if len(sks) > 0 {
+			n := 0
+			for _, c := range fr.Cmds[:o.Prefix] {
+				if h := instantiateAt(c, sks); h != "" && n < 400 {
+					b.WriteString(h + "\n")
+					n++
+				}
+			}
+		}
+		b.WriteString("(assert (not " + goal + "))\n")
 	}
 	b.WriteString("(check-sat)\n")
 	if len(values) > 0 {
